@@ -20,8 +20,17 @@ def scenarios(seed, tier):
     n = 300 if tier == 'quick' else 3000
     rnd = random.Random(seed * 7919 + 1)
     for i in range(n):
-        s = gen.gen_portfolio(random.Random(rnd.getrandbits(48)), tmax=12 if tier == 'quick' else 20)
+        r1 = random.Random(rnd.getrandbits(48))
+        s = gen.gen_portfolio(r1, tmax=12 if tier == 'quick' else 20)
         s['mode'] = 'split' if i % 4 == 3 else 'mono'
+        if i % 6 == 2 and len(s['nodes']) >= 2:
+            # node names that are easily confused once combined with a step number: one name is another plus digits
+            from .. import scen as _scen
+            pool = r1.choice([['1', '11', '10'], ['N1', 'N11', 'N10'], ['hub', 'hub1', 'hub11'], ['n_1', 'n_12', 'n_1_2']])
+            r1.shuffle(pool)
+            nmap = {nm: pool[k] if k < len(pool) else nm for k, nm in enumerate([x for x in s['nodes'] if not x.endswith('_i1')])}
+            s = dict(_scen.rename_scenario(s, {}, nmap), mode=s['mode'])
+            s['confusable_nodes'] = True
         if i % 10 == 9:
             # extreme unit conversions: tiny flows behind huge factors (e.g. TWh -> kWh)
             big = rnd.choice([1e6, 1e8, 5e8, 1e-6])
